@@ -37,7 +37,8 @@ theorem Seg.uncons {d : Array Nat} {a c : Nat} (h : Seg d a c) (hne : a ≠ c) :
 
 /-- An extension reported by the iterator lies inside the buffer and belongs to an existing frame. -/
 def ExtOk (it : Iter) (e : ExtRef) : Prop :=
-  3 ≤ e.id ∧ e.id ≤ 127 ∧ e.frame < it.nbFrames ∧ 0 ≤ e.len ∧ (e.off : Int) + e.len ≤ it.len
+  3 ≤ e.id ∧ e.id ≤ 127 ∧ e.frame < it.nbFrames ∧ 0 ≤ e.len ∧ (e.off : Int) + e.len ≤ it.len ∧
+    (e.id < 32 → e.len ≤ 1)
 
 def StepOk (it : Iter) : Step → Prop
   | .ext e => ExtOk it e
@@ -128,7 +129,12 @@ theorem repeatBody_inv {it : Iter} (hI : Inv it) (hrf : 0 < it.repeatFrame) (hlt
       · simp only [hfm, if_false]
         refine ⟨_, rfl, hI2, ⟨rfl, rfl, rfl, rfl⟩, ?_⟩
         simp only [StepOk, ExtOk]
-        refine ⟨hid.1, hid.2, hlt, ?_, ?_⟩ <;> omega
+        refine ⟨hid.1, hid.2, hlt, ?_, ?_, ?_⟩
+        · omega
+        · omega
+        · intro h32
+          have := skipPayload_short hr (by omega) h32
+          omega
 
 theorem repeatEnd_inv {it : Iter} (hI : Inv it) (hcl : 0 ≤ it.currLen) :
     Inv (repeatEnd it) ∧ Same it (repeatEnd it) ∧ (repeatEnd it).repeatFrame = 0 ∧ 0 ≤ (repeatEnd it).currLen := by
@@ -319,7 +325,15 @@ theorem mainBody_inv {it : Iter} (hI : Inv it) (hrf : it.repeatFrame = 0) (hcl :
         · simp only [hid3, if_true]
           have hext : ExtOk it { id := b0 / 2, frame := it.currFrame, off := it.currData + hs,
                                  len := (cp : Int) - it.currData - hs } := by
-            refine ⟨?_, ?_, hfr, ?_, ?_⟩ <;> simp only <;> omega
+            refine ⟨?_, ?_, hfr, ?_, ?_, ?_⟩
+            · simp only; omega
+            · simp only; omega
+            · simp only; omega
+            · simp only; omega
+            · simp only
+              intro h32
+              have := skipExtension_short hr hcl hb0 (by omega) h32
+              omega
           by_cases h32 : 32 ≤ b0 / 2
           · simp only [h32, if_true]
             exact ⟨_, rfl, hInvStep 0 (some cp) (Int.le_refl _) hid2, ⟨rfl, rfl, rfl, rfl⟩, hext⟩
